@@ -638,7 +638,7 @@ PINNED = {
     "models.py": ["LabelEncoder", "EarlyStopping", "BaseOptimizationConfig", "Agent", "ContinuousMultiVariable", "DiscreteMultiVariable", "PermutationVariable",
                   "MultiObjectiveVariable", "BinaryVariable", "Task.__init__", "Task.validate_objective_weights", "Task.empty_solution"],
     "hypertuner.py": ["ParameterGrid.__init__", "ParameterGrid.__getitem__", "HyperTuner"],
-    "multitask.py": ["Multitask.__init__", "Multitask.export_results"],
+    "multitask.py": ["Multitask.__set_keyword_arguments__", "Multitask.export_results"],
     "enums.py": ["ModeSolver", "TaskType", "ExportType"],
     "helpers.py": ["calculate_fitness", "average_fitness", "get_pool_executor"],
     "abstract.py": ["OptimizationAbstract.__init__"],
